@@ -812,6 +812,7 @@ class Scores:
 
     def _separating_threshold(self, lower, upper):
         """Midpoint of lower < upper that classifies both values correctly."""
+        lower, upper = float(lower), float(upper)  # Narrow integer scores would overflow
         threshold = (lower + upper) / 2
         # For adjacent floats the midpoint rounds onto one of the two values. Samples
         # equal to the threshold go to the class with the higher scores iff
